@@ -1556,6 +1556,9 @@ impl<K: KeyT, V: ValT, const N: usize> MapSys<K, V, N> {
         cx.quiet = true;
         for i in path {
             let op = self.ops[*i as usize];
+            if !applicable(&model, &op) {
+                continue; // (history mode) an op whose precondition does not hold is skipped
+            }
             self.step(&mut bx, &mut model, &probes, &op, cx, &mut leaked);
         }
         cx.quiet = was;
